@@ -12,8 +12,8 @@ def judge(cfg, res):
     out = []
     for outcome, path in res.get("nonfinal", []):
         if outcome[0] == "exc" and outcome[1] in ("FinamTimeError", "FinamNoDataError"):
-            if "zero-length" in outcome[2]:
-                continue
+            if "zero-length" in outcome[2] or "already finished" in outcome[2]:
+                continue  # refusing to go on because a needed source declared itself finished is the documented reaction, not a missing-data pull
             if not any(c == "C01.pull_error" for c, *_ in res["violations"]):
                 out.append((dict(kind="time_or_nodata_error_escaped_run", error=outcome[1]), f"run() failed with {outcome[1]}: {outcome[2]}", path))
         elif outcome[0] == "exc" and cfg.get("expect_ok", True):
@@ -54,6 +54,19 @@ def cases(tier):
         for c1, c2 in (([], []), ([F.TOK["L"]], [F.TOK["F1"]]), ([F.TOK["F1"]], [F.TOK["L"]]), ([F.TOK["A"]], [])):
             cs.append(F.line3(c1, c2, end=e3, starts=starts))
             cs.append(F.line3(c1, c2, end=e3, starts=starts, order=("C", "B", "A")))
+    # a producer that declares itself FINISHED while its consumer still needs data: the driver may refuse to go on, but it must
+    # never update the consumer without data
+    for fin in (1, 2, 3):
+        for ch in ([], [F.TOK["L"]], [F.TOK["F1"]]):
+            for order in (("A", "B"), ("B", "A")):
+                c = F.pair(ch, end=end, order=order)
+                c["comps"][0]["finish_at"] = fin
+                c["expect_ok"] = False
+                cs.append(c)
+        c = F.line3([], [], end=e3)
+        c["comps"][1]["finish_at"] = fin
+        c["expect_ok"] = False
+        cs.append(c)
     # through pull-based components
     psub1 = ["L", "F1", "S", "P1"] if q else ["L", "F1", "S", "P1", "A", "N", "U", "Fh"]
     psub2 = ["F1", "S", "P1"] if q else ["F1", "S", "P1", "Fh", "P2"]
